@@ -4,7 +4,7 @@ META = dict(
           'state space (used set x cursor) for each limit 1..12 (15 thorough); full-minus-<=2-holes x cursor families for limits up to 254 and for '
           '32/64-bit tokens; scripted cursor-wrapping histories on 8/16/32/64-bit tokens. owner level: BFS over histories of app_pointer owners '
           '(assign onto absent/empty/live, emplace, unregister, destroy, move-assign, move-construct, store/load of the token) on an 8-bit mbox '
-          'instance (limit 127) from seeds with 0/124..127 tokens already taken, replayed on fresh objects, lock-step with a reference map. '
+          'instance (limit 127) from seeds with 0/124..127 tokens already taken, replayed on fresh objects, lock-step with a reference map; two-sandbox level: BFS over 3 owners x 2 sandbox objects (get on either object, move-assign between owners also across the objects, unregister, destroy owner), after every operation every token ever issued in EACH table resolves iff a live owner holds it there. '
           'non-trivial = transitions where the reference requires an abort (exhaustion, dead token).'),
     assumptions=['pointer values are opaque to the table (state key drops them; each explored representative uses pairwise distinct pointers)',
                  'limit = token type maximum (255) is outside the stated range',
